@@ -469,4 +469,46 @@ def reloadFlavors (vars : List Flav → Flav → List (String × Obj)) :
     reloadFlavors vars (o ++ [f])
       (w ++ [{ name := f.name, inherits := f.inherits, defaults := effective w (vars o f) f.inherits }]) rest
 
+/-! ## the accessor and init options of a flavor (round 4)
+
+`:gettable-instance-variables`, `:settable-instance-variables` and `:inittable-instance-variables`
+are each absent, bare (= EVERY variable the flavor has when it is defined, inherited ones included)
+or a list of variables. A load form may abbreviate a selection to the bare option; it has to decide
+that per option, against all the variables of the flavor. -/
+
+inductive Sel where
+  | absent
+  | bare
+  | listed (names : List String)
+  deriving DecidableEq, Repr
+
+/-- what defflavor makes of an option for a flavor with the variables `vars` -/
+def Sel.names (vars : List String) : Sel → List String
+  | .absent => []
+  | .bare => vars
+  | .listed ns => vars.filter (fun v => ns.contains v)
+
+/-- how a load form writes the selection `sel`, judged against `count` variables (the repaired
+    Flavor.LoadForm: `count` = number of all variables of the flavor) -/
+def writeSelBy (count : Nat) (sel : List String) : Sel :=
+  if sel.isEmpty then .absent else if sel.length == count then .bare else .listed sel
+
+def writeSel (vars sel : List String) : Sel := writeSelBy vars.length sel
+
+/-- the three options of a flavor -/
+structure FlavOpts where
+  gets : List String
+  sets : List String
+  inits : List String
+  deriving DecidableEq, Repr
+
+/-- the options after defining the flavor again from a load form that writes them with `w` -/
+def reloadOpts (w : FlavOpts → List String → Sel) (vars : List String) (o : FlavOpts) : FlavOpts :=
+  { gets := (w o o.gets).names vars, sets := (w o o.sets).names vars, inits := (w o o.inits).names vars }
+
+/-- the seeded rule (copy of the gettable block): every option is abbreviated when the GETTABLE
+    selection is complete -/
+def writeSelGetsRule (vars : List String) (o : FlavOpts) (sel : List String) : Sel :=
+  if sel.isEmpty then .absent else if o.gets.length == vars.length then .bare else .listed sel
+
 end SlipVerif.LoadForm
